@@ -12,27 +12,112 @@ REAL_UNQUOTE = urllib.parse.unquote
 OPEN, CLOSE = "⟦", "⟧"
 
 
-def mark_unquote(s):
+def mark_unquote(s, encoding="utf-8", errors="replace"):
     """Injective marker in place of urllib.parse.unquote: the argument, bracketed; '' stays '' as with the real
     function (parse_qsl stores '' itself for a key without '=').  Rejects what the real function would reject
-    (anything but text)."""
+    (anything but text); a decoding other than the default (UTF-8, replace) is appended to the marker."""
     if not isinstance(s, str):
         raise TypeError("unquote() argument must be str, got %s" % type(s).__name__)
     if not s:
         return ""
+    if encoding != "utf-8" or errors != "replace":
+        return OPEN + s + CLOSE + encoding + "|" + errors
     return OPEN + s + CLOSE
 
 
-def unmark(s):
-    if not s:
-        return ""
-    assert s[:1] == OPEN and s[-1:] == CLOSE, s
-    return s[1:-1]
+def unmark(m):
+    """(text, encoding, errors) the marker was made from"""
+    if not m:
+        return "", "utf-8", "replace"
+    end = m.rfind(CLOSE)
+    assert m[:1] == OPEN and end > 0, m
+    if end == len(m) - 1:
+        return m[1:end], "utf-8", "replace"
+    encoding, _, errors = m[end + 1:].partition("|")
+    return m[1:end], encoding, errors
 
 
 def use_unquote(fn):
     """Rebind `urlunquote` inside ombott.request_pkg.helpers (this process only)."""
     helpers.urlunquote = fn
+
+
+class AssocForms:
+    """FormsDict (a C-level hash table: hashing realises a symbolic key) as seen from the code that fills and
+    merges it: the same mapping protocol over an association list searched with `==`, so keys stay symbolic.
+    Insertion order and overwrite semantics of dict are kept."""
+
+    def __init__(self, *args, **kw):
+        self.entries = []
+        self.update(*args, **kw)
+
+    def update(self, *args, **kw):
+        for src in args:
+            pairs = [(k, src[k]) for k in src.keys()] if hasattr(src, "keys") else src
+            for k, v in pairs:
+                self[k] = v
+        for k, v in kw.items():
+            self[k] = v
+
+    def __setitem__(self, key, value):
+        for e in self.entries:
+            if e[0] == key:
+                e[1] = value
+                return
+        self.entries.append([key, value])
+
+    def __getitem__(self, key):
+        for k, v in self.entries:
+            if k == key:
+                return v
+        raise KeyError(key)
+
+    def get(self, key, default=None):
+        for k, v in self.entries:
+            if k == key:
+                return v
+        return default
+
+    def __contains__(self, key):
+        for k, _ in self.entries:
+            if k == key:
+                return True
+        return False
+
+    def __len__(self):
+        return len(self.entries)
+
+    def __iter__(self):
+        return iter([k for k, _ in self.entries])
+
+    def keys(self):
+        return [k for k, _ in self.entries]
+
+    def items(self):
+        return [(k, v) for k, v in self.entries]
+
+    def __repr__(self):
+        return "AssocForms(%r)" % (self.items(),)
+
+
+def differential_forms(scripts):
+    """AssocForms against FormsDict on concrete scripts of (key, value) assignments followed by a merge with a
+    second script: same keys in the same order, same values."""
+    n = 0
+    for first, second in scripts:
+        a, d = AssocForms(), helpers.FormsDict()
+        for k, v in first:
+            a[k] = v
+            d[k] = v
+        a2, d2 = AssocForms(first), helpers.FormsDict(first)
+        assert a.items() == list(d.items()) == a2.items() == list(d2.items()), (first, a.items(), list(d.items()))
+        b, e = AssocForms(a, **AssocForms(second)), helpers.FormsDict(d, **helpers.FormsDict(second))
+        assert b.items() == list(e.items()) and len(b) == len(e), (first, second, b.items(), list(e.items()))
+        for k, _ in first + second:
+            assert (k in b) and b[k] == e[k] and b.get(k) == e.get(k), (first, second, k)
+        assert "\x00absent" not in b and b.get("\x00absent") is None
+        n += 1
+    return n
 
 
 def differential(corpus):
@@ -47,7 +132,7 @@ def differential(corpus):
         finally:
             use_unquote(REAL_UNQUOTE)
         real = helpers.parse_qsl(qs)
-        later = [(REAL_UNQUOTE(unmark(k)), REAL_UNQUOTE(unmark(v))) for k, v in marked]
+        later = [(REAL_UNQUOTE(*unmark(k)), REAL_UNQUOTE(*unmark(v))) for k, v in marked]
         assert later == real, "mark_unquote differs from urllib.parse.unquote on %r: %r / %r" % (qs, later, real)
         n += 1
     return n
